@@ -65,6 +65,10 @@ struct LocalRun {
 }
 
 impl LocalRun {
+    fn violation_hits(&self) -> usize {
+        self.viols.len()
+    }
+
     fn violation(&mut self, sig: impl Into<String>, what: impl Into<String>, detail: serde_json::Value) {
         let sig = sig.into();
         if self.viols.len() < 50 || !self.viols.iter().any(|v| v.0 == sig) {
@@ -201,7 +205,8 @@ mod http {
                                     acc.outcomes.insert(fp64(&(peers.len(), limit, n.min(70))));
                                 }
                             }
-                            if n > limit && limit >= 2 && seen_pairs.len() != to_one * span_two {
+                            // (a reply that already broke the rule cannot be expected to cover the offset space)
+                            if n > limit && limit >= 2 && seen_pairs.len() != to_one * span_two && acc.run.violation_hits() == 0 {
                                 machinery_failure(&format!("http: offset pair coverage incomplete for n={} limit={}: {} of {}", n, limit, seen_pairs.len(), to_one * span_two));
                             }
                         }
@@ -360,6 +365,9 @@ mod udp {
                                     break;
                                 }
                                 if seed > 400_000 {
+                                    if acc.run.violation_hits() > 0 {
+                                        break;
+                                    }
                                     machinery_failure(&format!("udp: offset pair coverage incomplete for n={} limit={}: {} of {} after {} seeds", n, limit, seen_pairs.len(), target, seed));
                                 }
                             }
@@ -468,7 +476,7 @@ mod ws {
                                 }
                             }
                         }
-                        if two_halves && m >= 1 && seen_pairs.len() != to_one * span_two {
+                        if two_halves && m >= 1 && seen_pairs.len() != to_one * span_two && acc.run.violation_hits() == 0 {
                             machinery_failure("ws: pair sweep incomplete");
                         }
                     }
